@@ -439,6 +439,11 @@ def builtin_values_section(tier, seed):
             for v in (items, tuple(items), set(hashables + list(range(1000, 1000 + n))), frozenset(list(range(n)) + [float('inf')]),
                       {i: x for i, x in enumerate(items)}, [items[:3], items], {'k': tuple(items)}):
                 cases.append((v, [(4, 79, 71, None, 1000, 0), (4, 30, 30, None, 1000, 0), (2, 200, 200, None, 1000, 0)]))
+    # more elements than the DEFAULT max_seq_len (1000) with the limit switched off explicitly (max_seq_len=None is a value, not "unset"):
+    # nothing may be dropped, at any nesting level
+    for v in (list(range(1003)), tuple(range(1001)), {i: i % 7 for i in range(1002)}, set(range(1004)), [0, list(range(1001))], {'k': tuple(range(1001))},
+              frozenset(range(1001))):
+        cases.append((v, [(4, 79, 71, None, None, 0), (2, 300, 300, None, None, 0)]))
     # keys of several types that cannot be compared with each other: grouped by type name, value order within a group, insertion
     # order where neither applies (F23); every insertion order of a few such key sets
     mixed_pool = [3, 1, 'b', 'a', b'y', b'x', None, (2, 1), (1, 9), Ellipsis]
@@ -885,6 +890,8 @@ def max_len(v):
         return max([len(v)] + [max_len(x) for x in v])
     if t is dict:
         return max([len(v)] + [max(max_len(k), max_len(x)) for k, x in v.items()])
+    if hasattr(v, '__verif_call__'):
+        return max([0] + [max_len(x) for x in v.args] + [max_len(x) for _, x in v.kwargs])
     return 0
 
 
@@ -994,7 +1001,17 @@ def height(v):
         return 1 + max([0] + [height(x) for x in v])
     if t is dict:
         return 1 + max([0] + [max(height(k), height(x)) for k, x in v.items()])
+    if hasattr(v, '__verif_call__'):
+        if _hugged(v):
+            return height(v.args[0])
+        return 1 + max([0] + [height(x) for x in v.args] + [height(x) for _, x in v.kwargs])
     return 0
+
+
+def _hugged(c):
+    """a call whose sole argument is a list / dict / tuple literal is written `f([...])`: call and literal are ONE nesting level (the
+    same rule that makes `Sub([...])` one container for a subclass instance)"""
+    return not c.kwargs and len(c.args) == 1 and type(c.args[0]) in (list, dict, tuple)
 
 
 def leaves_with_level(v, k=0, out=None):
@@ -1011,6 +1028,15 @@ def leaves_with_level(v, k=0, out=None):
             else:
                 leaves_with_level(key, k + 1, out)
             leaves_with_level(x, k + 1, out)
+    elif hasattr(v, '__verif_call__'):
+        # a call-style printed object: positional and keyword arguments alike sit one level below the call
+        if _hugged(v):
+            leaves_with_level(v.args[0], k, out)
+            return out
+        for x in v.args:
+            leaves_with_level(x, k + 1, out)
+        for _, x in v.kwargs:
+            leaves_with_level(x, k + 1, out)
     else:
         out.append((v, k, False))
     return out
@@ -1023,7 +1049,7 @@ def unique_tree(rng, depth=0):
 
     def key():
         keyc[0] += 1
-        return 'k%d' % keyc[0]
+        return 'k%d' % keyc[0] if rng.random() < 0.75 else b'kb%d' % keyc[0]
 
     def leaf():
         counter[0] += 1
@@ -1040,7 +1066,12 @@ def unique_tree(rng, depth=0):
         if d > 4 or rng.random() < 0.3:
             return leaf()
         n = rng.choice([0, 1, 2, 3])
-        kind = rng.choice(['list', 'tuple', 'dict', 'set', 'frozenset'])
+        kind = rng.choice(['list', 'tuple', 'dict', 'set', 'frozenset', 'list', 'tuple', 'dict', 'set', 'frozenset', 'call'])
+        if kind == 'call':
+            import subclasses as S
+            m = rng.choice([0, 1, 2])
+            return S.CallObj(rng.choice([S.Ctor, S.some_function]), [go(d + 1) for _ in range(n - min(m, n))],
+                             [('kw%d' % i, go(d + 1)) for i in range(min(m, n))])
         if kind == 'list':
             return [go(d + 1) for _ in range(n)]
         if kind == 'frozenset':
@@ -1087,6 +1118,14 @@ def pruned_src(v, d, k=0, empties=()):
             return '{...}'
         return '{' + ', '.join((repr(a) if isinstance(a, (str, bytes)) else pruned_src(a, d, k + 1, empties)) + ': ' + pruned_src(b, d, k + 1, empties)
                                for a, b in _take_msl(list(v.items()))) + '}'
+    if hasattr(v, '__verif_call__'):
+        name = '%s.%s' % (v.fn.__module__, v.fn.__qualname__)
+        if cut:
+            return name + '(...)'
+        if _hugged(v):
+            return name + '(' + pruned_src(v.args[0], d, k, empties) + ')'
+        return name + '(' + ', '.join([pruned_src(x, d, k + 1, empties) for x in v.args] +
+                                      ['%s=%s' % (kw, pruned_src(x, d, k + 1, empties)) for kw, x in v.kwargs]) + ')'
     if cut:
         return '%s(...)' % t.__name__
     return repr(v)
@@ -1217,7 +1256,7 @@ def depth_chunk(args):
 def depth_section(tier, seed):
     rng = random.Random(seed * 23 + 9)
     vals = [unique_tree(rng) for _ in range(900 if tier == 'quick' else 8000)]
-    vals = [v for v in vals if isinstance(v, (list, tuple, dict, set, frozenset))]
+    vals = [v for v in vals if isinstance(v, (list, tuple, dict, set, frozenset)) or hasattr(v, '__verif_call__')]
     vals += [frozenset([101, 102]), [frozenset([103]), 104], {'k1': frozenset([105, 's6'])}, (frozenset(),)]
     cases = [(v, rng.sample([1, 8, 20, 40, 79], 2)) for v in vals]
     chunks = [cases[i:i + 20] for i in range(0, len(cases), 20)]
@@ -1821,7 +1860,12 @@ def reader_chunk(cases):
             n += 1
             with warnings.catch_warnings():
                 warnings.simplefilter('ignore')
-                text = pp.pformat(value, indent=indent, width=width, depth=depth, ribbon_width=ribbon, max_seq_len=msl, sort_dict_keys=sort)
+                try:
+                    text = pp.pformat(value, indent=indent, width=width, depth=depth, ribbon_width=ribbon, max_seq_len=msl, sort_dict_keys=sort)
+                except Exception as e:
+                    if len(fails) < 3:
+                        fails.append({'kind': 'pformat-raises', 'why': '%s: %s' % (type(e).__name__, e), 'value': repr(value)[:300], 'settings': st})
+                    break
             try:
                 want = sx_parse(rval_of_ast(text))
             except Exception as e:
